@@ -98,12 +98,13 @@ def run(prog, tier) -> Result:
                judge_product(lambda o: o.args[0].mag,
                              lambda o, e2=e2: {"T1": (1, 0), "T2": (e2, 0)},
                              allow=("KeyError",), want_tuple=True))
-    qf = prog.function("quantity", "_qty_from_term")
-    cr.run("R02.1", qf, "_qty_from_term quotient", term_setup("quotient"),
-           judge_product(lambda o: o.args[0].mag, lambda o: {"T1": (1, 0), "T2": (-1, 0)}, allow=("KeyError",)))
+    qf = prog.modules["quantity"].functions.get("_qty_from_term")    # private helper, optional
+    if qf is not None:
+        cr.run("R02.1", qf, "_qty_from_term quotient", term_setup("quotient"),
+               judge_product(lambda o: o.args[0].mag, lambda o: {"T1": (1, 0), "T2": (-1, 0)}, allow=("KeyError",)))
 
     registry_rules(prog, res)
-    res.require("R02.1", 9)
+    res.require("R02.1", 8)
     res.require("R02.2", 80)
     res.require("R02.5", 3)
     return res
